@@ -51,7 +51,7 @@ def h(text: str) -> str:
 
 def parse(text: str) -> list[AST]:
     out: list[AST] = []
-    parse_string(text, out.append)
+    parse_string(text, out.append, logger=lambda c, m: None)
     return out
 
 
